@@ -420,8 +420,9 @@ def check(pid, tier, seed):
                 'exhaustive_means': 'every feasible path of every partition was explored within the '
                                     'stated bounds (CrossHair "Confirmed over all paths"); nothing is '
                                     'claimed outside the bounds',
-                'bounds': (meta.get('bounds').get(tier) if isinstance(meta.get('bounds'), dict)
-                           else meta.get('bounds')),
+                'bounds': (meta.get('bounds').get('thorough' if meta.get('tier_note') else tier)
+                           if isinstance(meta.get('bounds'), dict) else meta.get('bounds')),
+                'tier_note': meta.get('tier_note', ''),
                 'outside_bounds': meta.get('outside', ''),
                 'functions_encoded': functions,
                 'solver_queries': queries, 'solver_time_s': round(stime, 2),
